@@ -6,7 +6,7 @@ namespace TQ
 
 abbrev Oid := Nat
 
-inductive Term | delivered | noAction | errored | dropped422
+inductive Term | delivered | noAction | errored
 deriving DecidableEq, Repr
 
 inductive Status
@@ -109,7 +109,7 @@ def step (s : State) : Ev → Option State
                                    delivered := s.delivered ++ List.replicate (s.adds o) o })
       | .retriable => some (retryOrFail s o)
       | .fatal => some (done { s with st := set s.st o (.term .errored), errors := s.errors + 1 })
-      | .unprocessable => some (done { s with st := set s.st o (.term .dropped422) })
+      | .unprocessable => some (done { s with st := set s.st o (.term .errored), errors := s.errors + 1 })   -- HTTP 422: reported like any fatal outcome (D19 repair)
     else none
   | .batchEnd o =>
     if s.st o = .retryOut ∧ countSt s (fun x => x == .inBatch || x == .job) = 0 then
